@@ -263,6 +263,10 @@ func c04Decos(base *XElem, thorough bool) []Deco {
 				// commented-out markup: "> <" inside a comment is not inter-element white space
 				ds = append(ds, Deco{Kind: 'c', El: i, Pos: pos, Value: " <o>1</o> <o>2</o> "})
 				ds = append(ds, Deco{Kind: 't', El: i, Pos: 0, Value: "x> <y", CData: true})
+				// multi-line content with an angle bracket at a line end / line start (only one of the two: not the
+				// '>' blanks '<' shape of the recorded finding)
+				ds = append(ds, Deco{Kind: 'c', El: i, Pos: pos, Value: " a =>\n   b "}, Deco{Kind: 'c', El: i, Pos: pos, Value: " l1\n  <o/> "})
+				ds = append(ds, Deco{Kind: 't', El: i, Pos: 0, Value: "x =>\n  y", CData: true}, Deco{Kind: 'p', El: i, Pos: pos, Value: "a>\n b"})
 			}
 			ds = append(ds, Deco{Kind: 'p', El: i, Pos: pos, Value: "do=\"it\""})
 			ds = append(ds, Deco{Kind: 'd', El: i, Pos: pos, Value: "ENTITY e \"v\""})
@@ -305,7 +309,7 @@ func c04InDomain(doc *XElem) bool {
 
 func c04Run(c *Ctx) {
 	mustBeDefault(c)
-	c.S.Rule = "cases = (document, path): documents are all element trees with <= N elements (sibling names over {a,b}, every interleaving) with <= D decorations from: attributes (plain, namespaced, xmlns declaration; pairs give both orders), one text run alone or first (plain and CDATA; special characters, quotes, non-ASCII, blanks), one comment / directive / processing instruction at every position, renamed elements (two namespace prefixes on the same local name, case, hyphen); a wide family (one element with 9-13, 33, 65, 99-101, 257 and 1001 sequenced members in the sibling patterns a*, (a,b)*, (a,a,b)*, with and without leading text, a comment and a processing instruction among them, at the root and one level down; 9-13 attributes on one element); paths NewMapXmlSeq->Xml, ->XmlIndent, BeautifyXml, BeautifyXml->NewMapFormattedXmlSeq->Xml, and XmlIndent followed by Xml on the same MapSeq. Oracle: the raw token stream of the output (encoding/xml RawToken) equals the stream the abstract tree denotes - exactly for Xml, modulo whitespace-only character data for the indented forms; text compared after the documented trimming. XMLEscapeChars(true). Ascending/descending map order; E-choice bound 1 on the smaller documents. non-trivial = round trip executed."
+	c.S.Rule = "cases = (document, path): documents are all element trees with <= N elements (sibling names over {a,b}, every interleaving) with <= D decorations from: attributes (plain, namespaced, xmlns declaration; pairs give both orders), one text run alone or first (plain and CDATA; special characters, quotes, non-ASCII, blanks), one comment / directive / processing instruction at every position (incl. multi-line ones with an angle bracket at a line end or line start), renamed elements (two namespace prefixes on the same local name, case, hyphen); a wide family (one element with 9-13, 33, 65, 99-101, 257 and 1001 sequenced members in the sibling patterns a*, (a,b)*, (a,a,b)*, with and without leading text, a comment and a processing instruction among them, at the root and one level down; 9-13 attributes on one element); paths NewMapXmlSeq->Xml, ->XmlIndent, BeautifyXml, BeautifyXml->NewMapFormattedXmlSeq->Xml, and XmlIndent followed by Xml on the same MapSeq. Oracle: the raw token stream of the output (encoding/xml RawToken) equals the stream the abstract tree denotes - exactly for Xml, modulo whitespace-only character data for the indented forms; text compared after the documented trimming. XMLEscapeChars(true). Ascending/descending map order; E-choice bound 1 on the smaller documents. non-trivial = round trip executed."
 	c.S.Assumptions = []string{"text is the first item of its element (property: alone or before its child elements)", "documents without prolog (the sequence decoder documents a no-root result for leading comments/PIs)"}
 	n1, n2, ech := 4, 3, 3
 	if c.Thorough {
